@@ -164,6 +164,8 @@ func opDiskScan(f []string) string {
 		}
 	}
 	defer func() { scanDirName = "d" }()
+	// "dl" is a symlink to the scanned directory: an argument spelled through it is the same directory
+	os.Symlink(filepath.Join(root, scanDirName), filepath.Join(root, "dl"))
 	real := realArg(root, arg)
 	var o Obs
 	lf := "err"
@@ -235,8 +237,19 @@ func opDiskFind(f []string) string {
 	if (omask/2)%2 == 1 {
 		opts = append(opts, fileseq.SingleFiles)
 	}
+	stParam := st
+	if (omask/4)%2 == 1 {
+		// the style is given as an option; the parameter says the other one (the option wins)
+		if st == fileseq.PadStyleHash1 {
+			opts = append(opts, fileseq.FileOptPadStyleHash1)
+			stParam = fileseq.PadStyleHash4
+		} else {
+			opts = append(opts, fileseq.FileOptPadStyleHash4)
+			stParam = fileseq.PadStyleHash1
+		}
+	}
 	var o Obs
-	s, err := fileseq.FindSequenceOnDiskPad(real, st, opts...)
+	s, err := fileseq.FindSequenceOnDiskPad(real, stParam, opts...)
 	if err != nil {
 		o.Add("err", "err")
 		return o.String()
@@ -399,7 +412,7 @@ func genDiskScan(r *Rand, n int, thorough bool, emit func(string)) {
 	for _, sp := range []string{"/", "//", "/./", "/tmp/..", "/../"} {
 		emit(fmt.Sprintf("disk.root %d %s %s", r.Intn(4), r.Pick([]string{"1", "4"}), hx(sp)))
 	}
-	args := []string{"/T/d", "/T/d/", "d", "./d", "d/", "./d/", ".", "/T/./d", "/T/d/../d", "/T//d"}
+	args := []string{"/T/d", "/T/d/", "d", "./d", "d/", "./d/", ".", "/T/./d", "/T/d/../d", "/T//d", "/T/dl", "dl", "/T/dl/", "./dl"}
 	for i := 0; i < n; i++ {
 		ents := genEntries(r, false, "", "")
 		arg := r.Pick(args)
@@ -461,6 +474,6 @@ func genDiskFind(r *Rand, n int, thorough bool, emit func(string)) {
 		if r.Chance(1, 25) {
 			pat = dir + "bad\n#name"
 		}
-		emit(fmt.Sprintf("disk.find %s %d %s %s %s", r.Pick([]string{"1", "4"}), r.Intn(4), hx(pat), dirok, entsString(ents)))
+		emit(fmt.Sprintf("disk.find %s %d %s %s %s", r.Pick([]string{"1", "4"}), r.Intn(8), hx(pat), dirok, entsString(ents)))
 	}
 }
